@@ -144,6 +144,25 @@ def faults():
                     m.i.disconnect("b")
                     return m
                 yield (f"ports/connected-then-disconnected/{target}/{how}/{first}", b)
+    # ---- a connection to a port the target does not have - when the target has NO ports at all
+    for target in ("module", "external", "empty-bundle-port-module"):
+        for how in ("instance", "array", "two-conns"):
+            def b(target=target, how=how):
+                m = base()
+                if target == "external":
+                    T = h.ExternalModule(name="Portless", port_list=[], desc="", domain="c02")()
+                else:
+                    T = h.Module(name="PortlessM")
+                    T.k = h.Signal()
+                    T.r = h.R(r=1)(p=T.k, n=T.k)
+                    if target == "empty-bundle-port-module":
+                        T.e = h.Bundle(name="EmptyB")(port=True)
+                conns = dict(x=m.s1) if how != "two-conns" else dict(x=m.s1, y=m.s2)
+                if target == "empty-bundle-port-module":
+                    conns["e"] = h.AnonymousBundle()
+                m.i = (2 * T(**conns)) if how == "array" else T(**conns)
+                return m
+            yield (f"ports/extra-on-portless/{target}/{how}", b)
     # ---- missing / extra connections
     for k, f in {"missing": lambda m: dict(a=m.s2), "extra": lambda m: dict(a=m.s2, b=m.s1, c=m.s1),
                  "none": lambda m: dict()}.items():
@@ -479,6 +498,25 @@ def faults():
         m.c2 = mk(2)(p=m.s2)
         return m
     yield ("name/clash", clash)
+
+    # a module that shares its qualified name with one of its own DESCENDANTS (child, grandchild, through an array)
+    for depth in (1, 2, 3):
+        def clash_descendant(depth=depth):
+            def mk(w):
+                c = h.Module(name="Faulty")          # `base()` is called Faulty too
+                c.p = h.Port(width=w)
+                return c
+            m = base()
+            inner = mk(1)
+            cur, port = inner, "p"
+            for k in range(depth - 1):
+                mid = h.Module(name=f"Between{k}")
+                mid.p = h.Port()
+                mid.add(cur(p=mid.p), name="i") if k % 2 == 0 else mid.add(1 * cur(p=mid.p), name="arr")
+                cur = mid
+            m.c1 = cur(p=m.s1)
+            return m
+        yield (f"name/clash-with-own-descendant/depth{depth}", clash_descendant)
 
     # two DIFFERENT modules of one path-qualified name that came in through from_proto (two packages, or one package read
     # twice and one copy edited), meeting in one design
